@@ -29,12 +29,13 @@ const MinPackages = 54
 
 // Program is the resolved program all rules work on.
 type Program struct {
-	Repo  string
-	Fset  *token.FileSet
-	Pkgs  []*packages.Package          // module packages, sorted by path
-	ByPkg map[string]*packages.Package // every loaded package by path
-	SSA   *ssa.Program
-	Tests bool
+	Repo   string
+	Fset   *token.FileSet
+	Pkgs   []*packages.Package          // module packages, sorted by path
+	ByPkg  map[string]*packages.Package // every loaded package by path
+	modFns []*ssa.Function
+	SSA    *ssa.Program
+	Tests  bool
 
 	cgVTA *callgraph.Graph
 	cgCHA *callgraph.Graph
@@ -162,6 +163,9 @@ func (p *Program) AllFunctions() map[*ssa.Function]bool {
 // sorted by position for deterministic output. Synthetic wrappers are skipped; package initializers (the home of
 // package-level variable initialisers) are kept.
 func (p *Program) ModuleFunctions() []*ssa.Function {
+	if p.modFns != nil {
+		return p.modFns
+	}
 	var out []*ssa.Function
 	for fn := range p.AllFunctions() {
 		if fn.Synthetic != "" && !strings.HasPrefix(fn.Synthetic, "instance of") && fn.Synthetic != "package initializer" {
@@ -184,12 +188,29 @@ func (p *Program) ModuleFunctions() []*ssa.Function {
 		}
 		out = append(out, fn)
 	}
+	// token.Pos values depend on the order in which go/packages happened to add the files to the file set, which
+	// differs from run to run: order by file name and offset instead
+	type k struct {
+		file string
+		off  int
+		name string
+	}
+	keys := make(map[*ssa.Function]k, len(out))
+	for _, fn := range out {
+		ps := p.SSA.Fset.Position(fn.Pos())
+		keys[fn] = k{ps.Filename, ps.Offset, fn.String()}
+	}
 	sort.Slice(out, func(i, j int) bool {
-		if out[i].Pos() != out[j].Pos() {
-			return out[i].Pos() < out[j].Pos()
+		a, b := keys[out[i]], keys[out[j]]
+		if a.file != b.file {
+			return a.file < b.file
 		}
-		return out[i].String() < out[j].String()
+		if a.off != b.off {
+			return a.off < b.off
+		}
+		return a.name < b.name
 	})
+	p.modFns = out
 	return out
 }
 
